@@ -389,6 +389,7 @@ class Driver:
                     j = None
                     break
         ev = dict(h)
+        ev.setdefault("tie", False)
         ev["j"] = j["id"] if j else 0
         if j:
             if a == "JobStart":
@@ -397,8 +398,14 @@ class Driver:
                 j["st"] = "OK" if h["ok"] else "FAIL"
                 if h["ok"]:
                     self.clock += 1
+                    when = self.clock
+                    if h.get("tie"):
+                        ins = [self.after()[0]["fs"][f] for f in self.w["in"][h["t"]]]
+                        ins = [x for x in ins if x >= 0]
+                        if ins:
+                            when = max(ins)
                     for f in self.w["out"][h["t"]]:
-                        self.sb.set_file(f, self.clock, content="made by job %d\n" % j["id"])
+                        self.sb.set_file(f, when, content="made by job %d\n" % j["id"])
             else:
                 j["gone"] = True
         self.events.append(ev)
